@@ -20,6 +20,16 @@ namespace bpp
 {
 class Parameter;
 
+#ifdef BPP_CORE_VERIF
+/**
+ * @brief Verification hook (off unless BPP_CORE_VERIF is defined): called at the end of every
+ * state-changing member of Parameter with the object and the member's name. Null unless installed.
+ */
+typedef void (* ParameterAuditFunction)(const Parameter* parameter, const char* member);
+extern ParameterAuditFunction parameterAuditHook;
+#define BPP_CORE_VERIF_PARAMETER_AUDIT(member) do { if (::bpp::parameterAuditHook) ::bpp::parameterAuditHook(this, member); } while (0)
+#endif
+
 class ParameterEvent :
   public virtual Clonable
 {
@@ -110,7 +120,11 @@ public:
   /**
    * @brief Default contructor. Creates a parameter with no name, no constraint, and a value of 0.
    */
+#ifndef BPP_CORE_VERIF
   Parameter() : name_(""), value_(0), precision_(0), constraint_(0), listeners_() {}
+#else
+  Parameter() : name_(""), value_(0), precision_(0), constraint_(0), listeners_() { BPP_CORE_VERIF_PARAMETER_AUDIT("ctor"); }
+#endif
 
   /**
    * @brief Build a new parameter.
